@@ -388,6 +388,11 @@ class SpecCtx:
         self.I.st.ghost.setdefault("elem_sorts", {})[str(z3.simplify(listval))] = p
         return z3.BoolVal(True)
 
+    def dict_values(self, dictval, p):
+        """Declare the sort of the values of an agent-owned dictionary."""
+        self.I.st.ghost.setdefault("dict_value_sorts", {})[str(z3.simplify(dictval))] = p
+        return z3.BoolVal(True)
+
     def enum(self, clsname, member):
         return VRef(self.table.enum_refs[(self.cid(clsname), member)])
 
